@@ -117,7 +117,7 @@ Definition tx_agrees (cfg : config) (st : state) (t : tx) : bool :=
 Definition run_block_checked (cfg : config) (st : state) (txs : list tx) : option (bool * state) :=
   let st0 := withA st (set_height (A st) (height (A st) + 1)) in
   let st0 := withL st0 (set_events (L st0) []) in
-  match gas_on_persist cfg (neo_on_persist cfg st0) txs with
+  match natives_on_persist cfg (neo_on_persist cfg st0) txs with
   | None => None
   | Some st1 =>
       let '(okb, st2) := fold_left (fun '(okb, s) t => (okb && tx_agrees cfg s t, exec_tx cfg s t)) txs (true, st1) in
@@ -149,7 +149,7 @@ Fixpoint check_blocks (cfg : config) (st : option state) (prev : option dump) (b
       (model_here && m, spec_here && s)
   end.
 
-(* the hypotheses of the C05 theorems on the case itself: configuration well-formed, no transaction signed by the
+(* the hypotheses of the C05 theorems on the case itself: configuration well-formed, no script sees the witness of the
    Notary contract; a case outside them is malformed (code 3) *)
 Definition hyps_ok (cfg : config) (blocks : list blockrec) : bool :=
   cfg_wf_b cfg && forallb (fun b => forallb (fun t => negb (N.eqb (t_wit cfg t) (a_notary cfg))) (b_txs b)) blocks.
